@@ -62,8 +62,11 @@ Record view := mkview {
   vcell : nat;         (* its _imol.data is this row object *)
   vtc : nat;           (* its _thermal_condition object *)
   vin : bool;          (* still an entry of the parent's _streams dict *)
-  vmass : option nat   (* its _imol._data_cache['mass'], once filled: the row object (dict) the cached
+  vmass : option nat;  (* its _imol._data_cache['mass'], once filled: the row object (dict) the cached
                           mass-basis indexer wraps *)
+  vphase : phase;      (* what its Phase object reports (= vlabel while locked) *)
+  vlocked : bool       (* LockedPhase (views made by __getitem__ / re-attached by the phases setter) or the
+                          ordinary mutable Phase of a stream handed to MultiStream.from_streams *)
 }.
 
 (* StreamData: imol.copy(), T, P, phases *)
@@ -96,7 +99,8 @@ Definition cellv (h : list vec) (c : nat) : vec := nth c h [].
 Definition any_nz (v : vec) : bool := existsb (fun x => negb (qzerob x)) v.
 Definition tc_get (t : list (Q * Q)) (i : nat) : Q * Q := nth i t (0, 0).
 
-Definition uncache (v : view) : view := mkview (vlabel v) (vcell v) (vtc v) false (vmass v).
+Definition uncache (v : view) : view :=
+  mkview (vlabel v) (vcell v) (vtc v) false (vmass v) (vphase v) (vlocked v).
 Definition clear_cache (s : st) : st := set_views s (map uncache (views s)).   (* _streams = {} / .clear() *)
 
 (* ---------- indexer conversions ---------- *)
@@ -142,7 +146,7 @@ Definition sum_rows (n : nat) (h : list vec) (r : rmap) : vec :=
 Definition rebind (r : rmap) (v : view) : view :=
   if vin v then
     match rlookup r (vlabel v) with
-    | Some c => mkview (vlabel v) c (vtc v) true None
+    | Some c => mkview (vlabel v) c (vtc v) true None (vlabel v) true
     | None => uncache v
     end
   else v.
@@ -274,7 +278,7 @@ Definition get_view (s : st) (l : phase) : res st :=
       | Some i => Ok (set_lastret s (S i))
       | None =>
           match rlookup r l with
-          | Some c => Ok (set_lastret (set_views s (views s ++ [mkview l c (ptc s) true None]))
+          | Some c => Ok (set_lastret (set_views s (views s ++ [mkview l c (ptc s) true None l true]))
                                       (S (length (views s))))
           | None => Err EUndefPhase
           end
@@ -293,7 +297,7 @@ Definition write_view (s : st) (i j : nat) (x : Q) : res st :=
    the view's indexer object *)
 Definition mass_cell (v : view) : nat := match vmass v with Some c => c | None => vcell v end.
 Definition touch_mass (v : view) : view :=
-  mkview (vlabel v) (vcell v) (vtc v) (vin v) (Some (mass_cell v)).
+  mkview (vlabel v) (vcell v) (vtc v) (vin v) (Some (mass_cell v)) (vphase v) (vlocked v).
 Definition view_mass_touch (s : st) (i : nat) : res st :=
   match nth_error (views s) i with
   | Some v => Ok (set_views s (upd (views s) i (touch_mass v)))
@@ -381,7 +385,7 @@ Inductive op :=
 | OWriteParent (l : phase) (j : nat) (x : Q)    (* s.imol[l, j] = x   (s.imol[j] = x on a Stream) *)
 | OSetT (x : Q) | OSetP (x : Q)                 (* s.T = x / s.P = x *)
 | OViewSetT (i : nat) (x : Q) | OViewSetP (i : nat) (x : Q)
-| OViewSetPhase (i : nat) (l : phase)           (* views[i].phase = l : the phase is locked *)
+| OViewSetPhase (i : nat) (l : phase)           (* views[i].phase = l : raises when the phase is locked *)
 | OViewMassTouch (i : nat)                      (* views[i].imass[...] read: fills the view's mass cache *)
 | OViewMassWrite (i j : nat) (x : Q)            (* views[i].imass[chemical j] = x *)
 | OSave                                         (* saved.append(s.get_data()) *)
@@ -405,7 +409,10 @@ Definition step (s : st) (o : op) : res st :=
       match nth_error (views s) i with Some v => Ok (set_P s (vtc v) x) | None => Err EIndex end
   | OViewSetPhase i l =>
       match nth_error (views s) i with
-      | Some v => if phase_eqb (vlabel v) l then Ok s else Err EOther
+      | Some v =>
+          if vlocked v then (if phase_eqb (vphase v) l then Ok s else Err EOther)
+          else Ok (set_views s (upd (views s) i
+                     (mkview (vlabel v) (vcell v) (vtc v) (vin v) (vmass v) l false)))
       | None => Err EIndex
       end
   | OViewMassTouch i => view_mass_touch s i
@@ -444,7 +451,7 @@ Record obs := mkobs {
 
 Definition observe (s : st) : obs :=
   mkobs (is_multi s) (phases_of s) (map (flow s) (phases_of s)) (T_of s) (P_of s)
-        (map (fun v => mkvobs (vlabel v) (cellv (heap s) (vcell v))
+        (map (fun v => mkvobs (vphase v) (cellv (heap s) (vcell v))
                               (fst (tc_get (tcs s) (vtc v))) (snd (tc_get (tcs s) (vtc v))) (vin v)
                               (match vmass v with
                                | Some c => Some (vmul (cellv (heap s) c) (mws s))
@@ -479,6 +486,44 @@ Definition trace_eqb (s : st) (ops : list op) (expect : list obs) (e : option er
   list_eqb obs_eqb l expect && opt_eqb err_eqb e' e.
 
 (* ---------- initial states ---------- *)
+(* MultiStream.from_streams(streams): the given single-phase Stream objects BECOME the sub-streams: their
+   data vectors are the rows, the first one's ThermalCondition object is the stream's and is re-bound into
+   all the others; whatever their indexers cached before stays cached *)
+Record sstream := mkss { ss_phase : phase; ss_flow : vec; ss_T : Q; ss_P : Q; ss_mass : bool }.
+
+Fixpoint fs_index (ss : list sstream) (p : phase) : option nat :=
+  match ss with
+  | [] => None
+  | x :: t => if phase_eqb (ss_phase x) p then Some 0%nat
+              else match fs_index t p with Some i => Some (S i) | None => None end
+  end.
+Fixpoint fs_views (ss : list sstream) (i : nat) : list view :=
+  match ss with
+  | [] => []
+  | x :: t => mkview (ss_phase x) i 0 true (if ss_mass x then Some i else None) (ss_phase x) false
+              :: fs_views t (S i)
+  end.
+Fixpoint distinct_phases (ss : list sstream) : bool :=
+  match ss with
+  | [] => true
+  | x :: t => negb (existsb (fun y => phase_eqb (ss_phase y) (ss_phase x)) t) && distinct_phases t
+  end.
+Definition from_streams (n : nat) (mw : vec) (ss : list sstream) : res st :=
+  match ss with
+  | [] => Err EValue                                    (* at least one stream must be passed *)
+  | _ =>
+      if negb (distinct_phases ss) then Err EValue      (* each stream must have a different phase *)
+      else Ok (mkst n mw (map ss_flow ss) (map (fun x => (ss_T x, ss_P x)) ss)
+                    (Multi (fs_index ss)) 0 (fs_views ss 0) 0 [])
+  end.
+(* run a check on the constructed state, or expect the constructor's exception *)
+Definition with_init (r : res st) (e : option err) (f : st -> bool) : bool :=
+  match r, e with
+  | Ok s, None => f s
+  | Err a, Some b => err_eqb a b
+  | _, _ => false
+  end.
+
 Definition init_single (n : nat) (mw : vec) (p : phase) (v : vec) (T P : Q) : st :=
   mkst n mw [v] [(T, P)] (Single p 0) 0 [] 0 [].
 
